@@ -80,8 +80,15 @@ def apply : Handler := fun args =>
       | some (.map S) => (keys S).map fun n =>
           Json.arr #[.str n, outJson Val.toJson (flattenF E ((keyUniverse E S).length + 2) S n)]
       | _ => []
+    -- the link walk of every service (`walkChain`: leaf / stuck / long; `long` ⇔ `Cyclic`, `walkChain_long_iff_cyclic`)
+    let walk : List Json :=
+      match lookup "services" dict with
+      | some (.map S) => (keys S).map fun n =>
+          Json.arr #[.str n, .str (match walkChain E ((keyUniverse E S).length + 2) S n with
+            | .leaf => "leaf" | .stuck => "stuck" | .long => "long")]
+      | _ => []
     Json.mkObj [("outs", Json.arr (distinct.filterMap fun s => (Json.parse s).toOption).toArray),
-                ("flat", Json.arr flat.toArray)]
+                ("flat", Json.arr flat.toArray), ("walk", Json.arr walk.toArray)]
   | _ => Json.mkObj [("bad", "dict")]
 
 /-- `override.ExtendService`: through the C04 merge model (`full`) and through the rule-free merge (`plain`) -/
